@@ -5,7 +5,7 @@ import PonyVerif.Model.Cascade
   schema  : [{"a":{"ent":0,"coll":false,"req":false,"casc":false,"col":true},"b":{..},"sym":false},..]
   objs    : [{"ent":0,"alive":true,"refs":[[rel,side,null|id],..],"colls":[[rel,side,[ids]],..]},..]
   requests:
-    {"op":"run","schema":..,"objs":..,"deletes":[id,..]}
+    {"op":"run","schema":..,"objs":..,"guard":bool,"deletes":[id,..]}
        -> {"steps":[{"err":null|"ConstraintError",..,"agree":bool,"nodangling":bool,"objs":[..]}],"db":{..},"fk":bool}
     {"op":"bulk","schema":..,"objs":..,"stmts":[[id,..],..]}     (bulk DELETE statements, one after the other, on the committed image of `objs`)
        -> {"steps":[{"refused":bool,"db":{..},"fk":bool},..]}
@@ -114,8 +114,9 @@ def handle (j : Json) : Except String Json := do
       let sch : Schema ← (← argArr j "schema").mapM relOfJson
       let objs ← (← argArr j "objs").mapM objOfJson
       let dels ← natsOfJson (← j.getObjVal? "deletes")
+      let guard ← argBool j "guard"
       let (s, outs) := dels.foldl (fun (acc : Store × List Json) o =>
-        let (s', e) := deleteTop sch acc.1 o
+        let (s', e) := deleteTop sch guard acc.1 o
         (s', Json.mkObj [("err", match e with | none => Json.null | some e => Json.str (errName e)),
                           ("agree", toJson (checkAgree sch s')), ("nodangling", toJson (checkNoDangling sch s')),
                           ("objs", dump sch s')] :: acc.2)) (storeOf objs, [])
